@@ -115,9 +115,9 @@ class StreamCommands:
 
     @staticmethod
     def _bound(b, lo):
-        if lo and b == b"-":
+        if b == b"-":
             return (0, 0)
-        if not lo and b == b"+":
+        if b == b"+":
             return (U64, U64)
         return parse_id(b)
 
